@@ -501,7 +501,7 @@ static void emitCall(const CallBase& CB, FnCtx& C, const Function& F)
       else os << "  VP_COVER_AT(" << id << ");\n";
       return;
    }
-   if(callee && callee->isDeclaration() && (callee->getName() == "malloc" || callee->getName() == "realloc"))
+   if(callee && callee->isDeclaration() && (callee->getName() == "malloc" || callee->getName() == "realloc" || callee->getName() == "_Znwm"))
    {
       // typed allocation: if the result is cast to T*, allocate an array of T so that CBMC keeps the object field-sensitive
       Type* ET = nullptr;
